@@ -341,11 +341,18 @@ def bounded(b):
                             bad = bad or "rest %s column %s = %r, the score states %s" % (rest.id, k, r[k], v)
                 b.case("rest_array/columns_follow_the_rules_of_the_note_array", bad is None, dict(case, options=sorted(ropts)), bad or "", nontrivial=len(ra) > 0)
     # scores / lists of parts: lcm rescaling and id prefixing
-    for divs in ((2, 3), (4, 6, 3), (4, 2), (6, 6)):
+    # a negative entry stands for a part of that many divisions that holds one rest and no note (its divisions divide the lcm of the
+    # others, so that "the least common multiple of the parts" is the same number whether or not such a part is counted)
+    for divs in ((2, 3), (4, 6, 3), (4, 2), (6, 6), (2, -1, 3), (-2, 3, 4), (4, 6, -3), (2, -6, 3)):
         for uid in (True, False):
-            pl = [G.build_part("P%d" % i, d, notes=[("n%d_%d" % (i, k), k * d, d * (1 + k % 2), "CDE"[k % 3], None, 4 + i, 1, 1) for k in range(3)]) for i, d in enumerate(divs)]
+            pl = [G.build_part("P%d" % i, d, notes=[("n%d_%d" % (i, k), k * d, d * (1 + k % 2), "CDE"[k % 3], None, 4 + i, 1, 1) for k in range(3)]) if d > 0 else
+                  G.build_part("P%d" % i, -d, notes=[], rests=[("r%d" % i, 0, -4 * d, 1, 1)]) for i, d in enumerate(divs)]
+            notefree = [i for i, d in enumerate(divs) if d < 0]
+            divs = tuple(abs(d) for d in divs)
             score = G.simple_score(pl)
             case = {"score_divs": list(divs), "unique_id_per_part": uid}
+            if notefree:
+                case["parts_without_notes"] = notefree
             ok, na = b.guard("score_array/no_exception", case, lambda: score.note_array(unique_id_per_part=uid, include_divs_per_quarter=True))
             if not ok:
                 continue
@@ -363,7 +370,7 @@ def bounded(b):
                 b.case("score_array/list_of_parts_same_as_score", [(int(r["onset_div"]), int(r["pitch"]), str(r["id"])) for r in na2] == [(w[0], w[2], w[3]) for w in want], dict(case, via="list"), "list of parts differs")
             ok, ra = b.guard("score_rest_array/no_exception", case, lambda: pt.utils.music.rest_array_from_part_list(pl))
             if ok:
-                b.case("score_rest_array/no_rests_no_rows", len(ra) == 0, case, "rest array of rest-free parts has %d rows" % len(ra))
+                b.case("score_rest_array/no_rests_no_rows", len(ra) == len(notefree), case, "rest array has %d rows for %d rests" % (len(ra), len(notefree)))
     # inverse direction
     from partitura.musicanalysis.note_array_to_score import note_array_to_score
     base = [(0.0, 1.0, 0, 4, 60), (1.0, 0.5, 4, 2, 62), (1.5, 0.5, 6, 2, 64), (2.0, 2.0, 8, 8, 67), (2.0, 1.0, 8, 4, 72)]
